@@ -125,6 +125,7 @@ struct World {
     script_res: Vec<Res>,
     fault: Option<(&'static str, i64)>,
     oracle: Option<String>,
+    oracle_also: Vec<String>,
     traces: u32,
     pops: u32,
     visits: u32,
@@ -139,6 +140,8 @@ struct World {
     trace_overrec: bool,
     d4: bool,
     groups: u32,
+    group_in_op: bool,
+    dtor_live: u32,
     escaped: bool,
     pad: usize,
     links_buf: Vec<(*const Node, u8, usize)>,
@@ -169,6 +172,12 @@ fn set_oracle(msg: String) {
     let w = w();
     if w.oracle.is_none() {
         w.oracle = Some(msg);
+    } else if w.oracle_also.len() < 4
+        && w.oracle.as_deref().map(|o| o.split(':').next() != msg.split(':').next()).unwrap_or(false)
+        && !w.oracle_also.iter().any(|o| o.split(':').next() == msg.split(':').next())
+    {
+        // a verdict about ANOTHER property in the same call must not be masked by the first one
+        w.oracle_also.push(msg);
     }
 }
 
@@ -228,6 +237,7 @@ fn hook(ev: u8, addr: usize) {
         }
         GROUP => {
             w.groups += 1;
+            w.group_in_op = true;
             if w.trace_overrec {
                 w.d4 = true;
             }
@@ -292,6 +302,15 @@ impl Drop for Node {
             set_oracle(format!("C02:double-dtor:{}", id));
         }
         w.dtor_log.push(id);
+        // destructors in progress (script phase or field phase), scripted or not
+        w.dtor_live += 1;
+        struct Live;
+        impl Drop for Live {
+            fn drop(&mut self) {
+                self::w().dtor_live -= 1;
+            }
+        }
+        let _l = Live;
         if self.script != NO_SCRIPT {
             w.dtor_depth += 1;
             struct Depth;
@@ -309,6 +328,30 @@ impl Drop for Node {
             }
             // the field drop glue that follows is library drop logic again
             unsafe { check_discipline() };
+        }
+        // the fields, in declaration order, exactly as the compiler's glue would drop them after this
+        // function returns -- done by hand so that the harness regains control after each nested
+        // `Rc::drop` (C03 for a drop made by a destructor). A panic in the script skips this block and
+        // the glue drops the slots, as before.
+        let me = self as *mut Node;
+        for k in 0..K {
+            let sl = std::mem::replace(unsafe { &mut (*self.slots.get())[k] }, Slot::Empty);
+            let tgt = match &sl {
+                Slot::Strong(_, t) => Some(*t),
+                _ => None,
+            };
+            drop(sl);
+            if let Some(x) = tgt {
+                let w_ = self::w();
+                if w_.dtor_live == 1 && !w_.group_in_op && w_.disciplined && w_.fault.is_none() {
+                    unsafe {
+                        let was = crate::IN_OP;
+                        crate::IN_OP = false;
+                        c03_after_drop(x, Some(me));
+                        crate::IN_OP = was;
+                    }
+                }
+            }
         }
     }
 }
@@ -458,6 +501,12 @@ unsafe fn held(a: u32, b: u32) -> u64 {
     let w = w();
     let mut n = 0;
     if let Some(s) = w.shadow.iter().rev().find(|s| s.id == a) {
+        if s.flags & VALUE_GONE != 0 {
+            // the value has been moved out of the box by a teardown that is under way: the storage the
+            // pointer names is uninitialised (reading it is undefined behaviour, found by Miri); the
+            // object is being destroyed and its records go with it, so it cannot be over-recorded
+            return u64::MAX;
+        }
         if w.alive[a as usize] {
             for sl in (*(*s.vptr).slots.get()).iter() {
                 if let Slot::Strong(_, t) = sl {
@@ -565,6 +614,10 @@ pub unsafe fn exec_act(a: &Act, me: Option<*mut Node>) -> Res {
             match &*reg(r) {
                 Reg::Strong(..) | Reg::Loose(..) => {
                     check_discipline();
+                    let tgt = match &*reg(r) {
+                        Reg::Strong(_, id) => Some(*id),
+                        _ => None,
+                    };
                     let x = std::mem::replace(&mut *reg(r), Reg::Empty);
                     match x {
                         Reg::Strong(rc, _) if route(2) == 1 => {
@@ -572,6 +625,19 @@ pub unsafe fn exec_act(a: &Act, me: Option<*mut Node>) -> Res {
                             Rc::decrement_strong_count(Rc::into_raw(rc));
                         }
                         x => drop(x),
+                    }
+                    if let (Some(x), Some(m)) = (tgt, me) {
+                        // C03 for a drop made by a destructor: judged right after the nested drop returns,
+                        // when the only object whose value the harness cannot see in place is the one whose
+                        // destructor is running (no group teardown in this call, no deeper nesting)
+                        let w_ = w();
+                        if w_.dtor_live == 1 && !w_.group_in_op && w_.disciplined && w_.fault.is_none() {
+                            // the oracle's own allocations are not the library's
+                            let was = crate::IN_OP;
+                            crate::IN_OP = false;
+                            c03_after_drop(x, Some(m));
+                            crate::IN_OP = was;
+                        }
                     }
                     Res::Unit
                 }
@@ -1194,7 +1260,7 @@ unsafe fn boundary_oracles() {
 /// C03 after a top-level drop of a handle to `x`: if x is still alive and the
 /// adoption closure of x is owned entirely by recorded adoptions inside the
 /// closure, the drop should have collected it
-unsafe fn c03_after_drop(x: u32) {
+unsafe fn c03_after_drop(x: u32, me: Option<*mut Node>) {
     let w = w();
     if !w.alive[x as usize] {
         return;
@@ -1224,6 +1290,15 @@ unsafe fn c03_after_drop(x: u32) {
                 }
             }
             _ => {}
+        }
+    }
+    if let Some(m) = me {
+        // called from inside the destructor of `m` (a single object being destroyed): the handles its value
+        // still holds are handles held outside the set
+        for sl in (*(*m).slots.get()).iter() {
+            if let Slot::Strong(_, id) = sl {
+                outside[*id as usize] += 1;
+            }
         }
     }
     for s in w.shadow.iter() {
@@ -1278,6 +1353,7 @@ fn reset_world(pad: usize) {
             script_res: Vec::with_capacity(256),
             fault: None,
             oracle: None,
+            oracle_also: Vec::with_capacity(4),
             traces: 0,
             pops: 0,
             visits: 0,
@@ -1291,6 +1367,8 @@ fn reset_world(pad: usize) {
             trace_overrec: false,
             d4: false,
             groups: 0,
+            group_in_op: false,
+            dtor_live: 0,
             escaped: false,
             pad,
             links_buf: Vec::with_capacity(64),
@@ -1334,9 +1412,11 @@ fn run_history(id: &str, mode: &str, body: &str, pad: usize, out: &mut impl Writ
         w_.dtor_log.clear();
         w_.script_res.clear();
         w_.traces = 0;
+        w_.group_in_op = false;
         w_.pops = 0;
         w_.visits = 0;
         w_.oracle = None;
+        w_.oracle_also.clear();
         let marker = 0u8;
         w_.sp_base = &marker as *const u8 as usize;
         w_.sp_min = w_.sp_base;
@@ -1364,13 +1444,12 @@ fn run_history(id: &str, mode: &str, body: &str, pad: usize, out: &mut impl Writ
             match t {
                 Some(id) if w_.alive[id as usize] => {
                     let s = w_.shadow.iter().rev().find(|s| s.id == id).unwrap();
-                    if s.flags == 0 {
-                        w_.links_buf.clear();
-                        shim::links(s.vptr, &mut w_.links_buf);
-                        w_.links_buf.is_empty()
-                    } else {
-                        false
-                    }
+                    // "currently has no recorded adoption" is judged by the calls alone (the ledger of
+                    // adopt / unadopt calls, records forgotten when an end dies), not by the library's own
+                    // table: a record the library failed to remove must not excuse the trace it causes
+                    s.flags == 0
+                        && !w_.ledger.iter().any(|e| e.0 == id || e.1 == id)
+                        && !w_.loops.iter().any(|e| e.0 == id)
                 }
                 _ => false,
             }
@@ -1431,7 +1510,7 @@ fn run_history(id: &str, mode: &str, body: &str, pad: usize, out: &mut impl Writ
             boundary_oracles();
             if let Some(x) = dropped_target {
                 if w().oracle.is_none() {
-                    c03_after_drop(x);
+                    c03_after_drop(x, None);
                 }
             }
         }
@@ -1509,6 +1588,9 @@ fn run_history(id: &str, mode: &str, body: &str, pad: usize, out: &mut impl Writ
         let _ = write!(line, " groups={}", w_.groups);
         if let Some(o) = &w_.oracle {
             let _ = write!(line, " oracle={}", o);
+        }
+        for (i, o) in w_.oracle_also.iter().enumerate() {
+            let _ = write!(line, " also{}={}", i, o);
         }
         let _ = writeln!(out, "{}", line);
         if w().fault.is_some() {
